@@ -35,11 +35,15 @@ impl Querier {
     pub fn query_supply<D: AsStr>(&self, denom: D) -> (r: Result<Coin, StdError>)
         ensures match r { Ok(c) => c.denom@ == denom.sv() && c.amount@ == bank_supply(*self, denom.sv()), Err(_) => true }
     { unimplemented!() }
-    /// cross-contract smart query: the answer is unconstrained (another contract's state)
+    /// cross-contract smart query: the answer is unconstrained (another contract's state); `wasm_answered` only records
+    /// that a value was really returned by this querier (so contracts can say "the farm manager reported ...")
     #[verifier::external_body]
     pub fn query_wasm_smart<T, A: AsStr, M>(&self, addr: A, msg: &M) -> (r: Result<T, StdError>)
+        ensures r is Ok ==> wasm_answered(*self, addr.sv(), r->Ok_0),
     { unimplemented!() }
 }
+
+pub uninterp spec fn wasm_answered<T>(q: Querier, addr: Seq<char>, x: T) -> bool;
 
 // ---- Items
 pub struct ConfigItem {}
